@@ -111,8 +111,13 @@ def build(decls, stmts, xdp_min=None):
     return res
 
 
+def regs_of(e):
+    """registers live in the program; a subprogram (a device) reaches them through its .ebpf"""
+    return e if hasattr(e, "r") else e.ebpf
+
+
 def get_reg(e, kind, no):
-    return getattr(e, kind)[no]
+    return getattr(regs_of(e), kind)[no]
 
 
 def bexpr(e, x):
@@ -123,6 +128,11 @@ def bexpr(e, x):
         return get_reg(e, x[1], x[2])
     if t == "v":
         return getattr(e, x[1])
+    if t == "vm":
+        # ["vm", name, regno, c]: the LOCAL variable `name` read through a computed address - e.m<fmt>[e.r10 + e.rN + (addr - c)] with
+        # register N holding c - the same bytes as ["v", name], reached by another route of the generator
+        fmt, addr = type(e).__dict__[x[1]].fmt_addr(e)
+        return getattr(e, "m" + fmt)[e.r10 + e.r[x[2]] + (addr - x[3])]
     if t == "neg":
         return -bexpr(e, x[1])
     if t == "abs":
@@ -151,7 +161,7 @@ def assign(e, target, value):
     if target[0] == "v":
         setattr(e, target[1], value)
     else:
-        getattr(e, target[1])[target[2]] = value
+        getattr(regs_of(e), target[1])[target[2]] = value
 
 
 def run_stmts(e, stmts):
